@@ -1,6 +1,8 @@
 package props
 
 import (
+	"encoding/json"
+	"fmt"
 	"strings"
 	"testing"
 
@@ -52,28 +54,28 @@ func c01Prop(rec *ev.Recorder) func(t *rapid.T) {
 	}
 }
 
-func TestC01(t *testing.T) {
-	rec := ev.New("C01", c01Rule,
-		"the reference interpreter (harness/ref) is the definition of the language rules",
-		"the parser is shared between reference and implementation (it has its own properties C06/C07/C13/C14)")
-	if *replayFile != "" {
-		var c struct {
+func init() {
+	replayers["C01"] = func(kind string, c json.RawMessage) string {
+		var v struct {
 			Stmts   []string `json:"stmts"`
 			Discard bool     `json:"discard"`
 		}
-		loadReplay(t, "C01", &c)
-		o := diffSession(c.Stmts, diffOpts{discard: c.Discard})
-		if o.bad() {
-			t.Fatalf("%s %s\n%s", o.kind, o.why, joinStmts(c.Stmts))
+		mustJSON(c, &v)
+		if o := diffSession(v.Stmts, diffOpts{discard: v.Discard}); o.bad() {
+			return fmt.Sprintf("%s %s\n%s", o.kind, o.why, joinStmts(v.Stmts))
 		}
+		return ""
+	}
+}
+
+func TestC01(t *testing.T) {
+	if replayMode(t, "C01") {
 		return
 	}
-	defer func() {
-		v := 0
-		if t.Failed() {
-			v = 1
-		}
-		rec.Write(v)
-	}()
+	rec := ev.New("C01", c01Rule,
+		"the reference interpreter (harness/ref) is the definition of the language rules",
+		"the parser is shared between reference and implementation (it has its own properties C06/C07/C13/C14)")
+	rec.Extra["regression_cases"] = runRegressions(t, "C01")
+	defer finish(t, rec)
 	rapid.Check(t, c01Prop(rec))
 }
